@@ -135,4 +135,130 @@ theorem isXsDuration_back (secs ms : Nat) (hms : ms ≤ 1000) :
   rw [this]
   exact isXsDuration_hms _ _ _ _ (by split <;> omega)
 
+/-! ## date-times -/
+
+theorem digitChar_isDigit {a : Nat} (h : a < 10) : (Nat.digitChar a).isDigit = true := by
+  match a, h with
+  | 0, _ | 1, _ | 2, _ | 3, _ | 4, _ | 5, _ | 6, _ | 7, _ | 8, _ | 9, _ => rfl
+  | n + 10, h => omega
+
+theorem digitChar_val {a : Nat} (h : a < 10) : (Nat.digitChar a).toNat - 48 = a := by
+  match a, h with
+  | 0, _ | 1, _ | 2, _ | 3, _ | 4, _ | 5, _ | 6, _ | 7, _ | 8, _ | 9, _ => rfl
+  | n + 10, h => omega
+
+theorem twoDigits_digits {a b : Nat} (ha : a < 10) (hb : b < 10) (r : Text) :
+    twoDigits (Nat.digitChar a :: Nat.digitChar b :: r) = some (a * 10 + b, r) := by
+  simp only [twoDigits, digitChar_isDigit ha, digitChar_isDigit hb, digitChar_val ha, digitChar_val hb,
+    Bool.and_self, if_true]
+
+theorem twoDigits_pad2 {n : Nat} (h : n < 100) (r : Text) : twoDigits (pad 2 n ++ r) = some (n, r) := by
+  rw [pad2_eq h]
+  simp only [List.cons_append, List.nil_append]
+  rw [twoDigits_digits (by omega) (by omega)]
+  congr 2
+  omega
+
+theorem expectChar_cons (c : Char) (r : Text) : expectChar c (c :: r) = some r := by
+  simp [expectChar]
+
+theorem daysInMonth_le (y m : Nat) : daysInMonth y m ≤ 31 := by
+  unfold daysInMonth
+  split
+  · split <;> omega
+  · split <;> omega
+
+/-- the offsets xs:dateTime can express: none (written `Z`) or at most ±14:00 -/
+def offsetXsd (o : Option Int) : Bool :=
+  match o with
+  | none => true
+  | some x => x.natAbs ≤ 840
+
+theorem isTz_tzText (off : Option Int) (h : offsetXsd off = true) : isTz (tzText off) = true := by
+  unfold tzText
+  cases off with
+  | none => rfl
+  | some o =>
+    by_cases h0 : o = 0
+    · simp only [h0, if_true]; rfl
+    · simp only [h0, if_false]
+      have hb : o.natAbs ≤ 840 := by simpa [offsetXsd] using h
+      rw [offText_eq (by omega)]
+      have hs : ((if o < 0 then '-' else '+') = '+' ∨ (if o < 0 then '-' else '+') = '-') := by
+        split
+        · exact Or.inr rfl
+        · exact Or.inl rfl
+      have e1 := twoDigits_digits (a := o.natAbs / 60 / 10) (b := o.natAbs / 60 % 10) (by omega) (by omega)
+        [':', Nat.digitChar (o.natAbs % 60 / 10), Nat.digitChar (o.natAbs % 60 % 10)]
+      have e2 := twoDigits_digits (a := o.natAbs % 60 / 10) (b := o.natAbs % 60 % 10) (by omega) (by omega) []
+      have hcond : (decide (o.natAbs / 60 / 10 * 10 + o.natAbs / 60 % 10 < 14) &&
+            decide (o.natAbs % 60 / 10 * 10 + o.natAbs % 60 % 10 < 60) ||
+          decide (o.natAbs / 60 / 10 * 10 + o.natAbs / 60 % 10 = 14) &&
+            decide (o.natAbs % 60 / 10 * 10 + o.natAbs % 60 % 10 = 0)) = true := by
+        simp only [Bool.or_eq_true, Bool.and_eq_true, decide_eq_true_eq]
+        omega
+      rcases hs with hs | hs <;> rw [hs] <;>
+        simp only [isTz, isTzOffset, e1, e2, expectChar_cons, hcond, List.isEmpty_cons, Bool.and_false,
+          Bool.false_or, decide_true, Bool.true_or, Bool.or_true, Bool.and_self]
+
+theorem isXsDateTime_render (d : DateTime) (hv : d.valid = true) (ho : offsetXsd d.offset = true) :
+    isXsDateTime (bodyText d ++ tzText d.offset) = true := by
+  simp only [DateTime.valid, Bool.and_eq_true, decide_eq_true_eq] at hv
+  obtain ⟨⟨⟨⟨⟨⟨⟨⟨⟨hy1, hy2⟩, hm1⟩, hm2⟩, hd1⟩, hd2⟩, hh⟩, hmi⟩, hs⟩, hus⟩ := hv
+  have hd3 := daysInMonth_le d.year d.month
+  have hlen : (pad 4 d.year).length = 4 := length_pad (by decide) (by omega)
+  have hform : bodyText d ++ tzText d.offset = pad 4 d.year ++ ('-' :: (pad 2 d.month ++ ('-' ::
+      (pad 2 d.day ++ ('T' :: (pad 2 d.hour ++ (':' :: (pad 2 d.minute ++ (':' :: (pad 2 d.second ++
+      ((if d.micro ≠ 0 then '.' :: pad 6 d.micro else []) ++ tzText d.offset))))))))))) := by
+    simp only [bodyText, List.append_assoc, List.cons_append]
+  rw [hform]
+  unfold isXsDateTime
+  simp only []
+  rw [List.take_left' hlen, List.drop_left' hlen, expectChar_cons]
+  simp only []
+  rw [twoDigits_pad2 (by omega)]
+  simp only []
+  rw [expectChar_cons]
+  simp only []
+  rw [twoDigits_pad2 (by omega)]
+  simp only []
+  rw [expectChar_cons]
+  simp only []
+  rw [twoDigits_pad2 (by omega)]
+  simp only []
+  rw [expectChar_cons]
+  simp only []
+  rw [twoDigits_pad2 (by omega)]
+  simp only []
+  rw [expectChar_cons]
+  simp only []
+  rw [twoDigits_pad2 (by omega)]
+  simp only []
+  have hyd : (pad 4 d.year).all Char.isDigit = true := by
+    rw [List.all_eq_true]; exact allDigits_pad 4 d.year
+  have hconds : (decide ((pad 4 d.year).length = 4) && (pad 4 d.year).all Char.isDigit) = true := by
+    simp [hlen, hyd]
+  have hrange : (decide (1 ≤ d.month) && decide (d.month ≤ 12) && decide (1 ≤ d.day) && decide (d.day ≤ 31)
+      && decide (d.hour < 24) && decide (d.minute < 60) && decide (d.second < 60)) = true := by
+    simp only [Bool.and_eq_true, decide_eq_true_eq]
+    omega
+  obtain ⟨c, rest, htz, hc⟩ := tzText_head d.offset
+  have hcd : c.isDigit = false := by
+    simp only [isSecChar, Bool.or_eq_false_iff] at hc; exact hc.1
+  have hcdot : c ≠ '.' := by
+    intro h; subst h; simp [isSecChar] at hc
+  have htzok := isTz_tzText d.offset ho
+  rw [hconds, hrange]
+  simp only [Bool.true_and]
+  by_cases hus0 : d.micro = 0
+  · simp only [hus0, ne_eq, not_true_eq_false, if_false, List.nil_append]
+    rw [htz] at htzok ⊢
+    split
+    · rename_i heq; cases heq; exact absurd rfl hcdot
+    · exact htzok
+  · simp only [hus0, ne_eq, not_false_eq_true, if_true, List.cons_append]
+    rw [htz, takeWhile_run c rest (allDigits_pad 6 d.micro) hcd, dropWhile_run c rest (allDigits_pad 6 d.micro) hcd,
+      ← htz, htzok, allDigits_of (allDigits_pad 6 d.micro) (pad_ne_nil 6 d.micro)]
+    rfl
+
 end DashLive.Xml
